@@ -99,6 +99,11 @@ def run(ctx):
         ctx.count("kind:" + ("split" if is_split(cls) else kind))
         ctx.sample(dict(method=name, declared=order, attained=attained, trees_per_level=ot[-1]), limit=4)
     richardson(ctx)
+    # that the code propagates with the generated coefficients (row 0, all stages, through step() and __call__) is the
+    # step correspondence of C02, run here as well
+    import p_c02
+    p_c02.explicit_block(ctx, ctx.rng)
+    p_c02.call_sequence_block(ctx, ctx.rng)
 
 
 def measure(cls, order):
@@ -170,6 +175,13 @@ def richardson(ctx):
             if R >= 3:
                 if eff <= p and ctx.quick() is not None:
                     inp["measured"] = measure_rich(b, R, p)
+                if eff > p and p <= 2:
+                    # the model (proved weights) says the order is raised: it must be visible on the implementation
+                    m = measure_rich(b, R, p)
+                    qo = m.get("observed_local_order") if isinstance(m, dict) else None
+                    ctx.oracle("richardson-measured-order", qo is not None and qo > p + 0.5, dict(inp, measured=m),
+                               key="richardson-measured-order:%s:%d" % (b.__name__, R),
+                               what="Richardson wrapper of %s with %d levels: measured local order %r, not above the basis order %d (the table model gives %d)" % (b.__name__, R, qo, p, eff))
                 ctx.oracle("richardson-raised", eff > p, inp, key="richardson-not-raised",
                            what="Richardson wrapper of %s with %d levels has order %d, not higher than the basis order %d "
                                 "(denominators 2^n-1 and returned entry T[R-2][R-2] give order max(p, R-1))" % (b.__name__, R, eff, p))
